@@ -83,6 +83,7 @@ CLAIMED["C01"] = {
             "The logic arms of Exp::linearize are proved too (U01.reify, U01.lgA, U01.lgB): not e is the affine form 1 - e of a 0/1-valued operand; the reified and / or / implies / iff / xor auxiliaries EQUAL the connective's value wherever it is defined "
             "(from the queued comparisons z <= e_i, z >= sum - (n-1), ...); try_normalize_logic_constraint is proved (U01.norm): a reported tautology holds, a reported assertion implies the comparison, under the declared domains. "
             "With these, every arm of Exp::linearize and every function between the model-level loop and the emitted rows is under a discharged contract in the soundness direction. "
+            "The statement is relative to Exp::simplify's contract, whose and / or arms are assumed and carry the C10 known finding (logic connectives over operands that are not 0/1-valued). " 
             "NOT decided deductively (listed in the evidence): the converse direction (no source-feasible point is cut off; big-M constants large enough), "
             "domain publication after the loop, the equivalence between a sparse row and its dense coefficient vector (U08.coef gives the vector entry-wise), termination.",
     "note": "Trusted: prelude/f64_layer.rs (floats as exact extended reals), prelude/smap.rs (IndexMap<String,_> view), prelude/std_stubs.rs. BoundsAnalyzer::bounds_of is used through its contract, proved in U07.fwd. "
@@ -137,7 +138,9 @@ CLAIMED["C10"] = {
             "'A division by zero or by a non-constant is never rewritten away' is proved for the arithmetic fragment in its semantic form: at every assignment where the original is undefined (a division by zero, e.g. 1/x at x = 0) "
             "the simplified expression is undefined too (U10.keep / U10.keepu); this rests on the guard of the zero-product rule, proved to be exactly 'contains a division by zero or by a non-literal' (U10.div). "
             "Idempotence and the behaviour on abs/min/max-wrapped divisions are checked only by a BOUNDED search on the real code (labelled). "
-            "NOT decided: the n-ary and / or arms (simplify_logic_nary returns a single remaining operand itself, which equals the 0/1 value of the conjunction only for 0/1-valued operands: needs a typing hypothesis) and the min / max arms (assumed arms), "
+            "KNOWN FINDING (recorded, not repaired: the repair breaks an existing test): simplify_logic_nary returns a single remaining operand without its connective, so `x and 1` becomes `x`, which changes the value for every operand that is not 0/1-valued; "
+            "the bounded search (now over logic nodes with non-0/1 operands too) reports it as one entry keyed by that call site and still reports every failure it does not explain. "
+            "NOT decided: the n-ary and / or arms beyond that finding and the min / max arms (assumed arms), "
             "termination, and the constant-spelling sentence of the property (bound inference before simplification).",
     "note": "Trusted: prelude/f64_layer.rs (floats as exact reals: a rewrite that is exact over the reals may still change a rounded result). Assumed arms are listed in the evidence. "
             "Exp::simplify is split over five queries (binary / unary / logic arms, two clause groups) because the joint query is unstable in the solver.",
